@@ -13,6 +13,7 @@
 #include "message.h"
 #include "reap.h"
 #include "taskq.h"
+#include "verif.h"
 
 #include <limits.h>
 #include <string.h>
